@@ -392,6 +392,11 @@ func TestProp(t *testing.T) {
 	nMutCfg := env.Pick(16, 1200)
 	replaying := env.Replay != ""
 	expectClauses := map[string]bool{}
+	type cfgFloor struct {
+		ps                  string
+		claims, mut, nspecs int
+	}
+	var cfgFloors []cfgFloor
 	var emu sync.Mutex
 	start := time.Now()
 	var wg sync.WaitGroup
@@ -402,7 +407,7 @@ func TestProp(t *testing.T) {
 		if sm.cfg != nil {
 			name = sm.prov + "+" + sm.cfg.name + "-" + sm.siteName
 			workers, nm, idBase = 4, nMutCfg, sm.cfg.no*100000
-			if sm.cfg.no == 1 {
+			if sm.cfg.no == 1 || (!env.Thorough() && sm.siteName == "callback") {
 				nm = 0
 			}
 		}
@@ -417,6 +422,13 @@ func TestProp(t *testing.T) {
 		} else {
 			specs = cfgSpecs(sm.prov, sm.cfg, env.Thorough(), env.Seed, sm.siteName)
 			rep.Extra("configuration_cases_"+cfgTag(sm.prov, sm.cfg.name)+"_"+sm.siteName, len(specs))
+			nClaims := 0
+			for _, sp := range specs {
+				if sp.kind == "cfg-claims" {
+					nClaims++
+				}
+			}
+			cfgFloors = append(cfgFloors, cfgFloor{cfgTag(sm.prov, sm.cfg.name) + "_" + sm.siteName, nClaims, nm, len(specs)})
 		}
 		wg.Add(1)
 		go func() {
@@ -503,15 +515,14 @@ func TestProp(t *testing.T) {
 		for _, sm := range streams[nOrig:] {
 			tag := cfgTag(sm.prov, sm.cfg.name)
 			ps := tag + "_" + sm.siteName
-			if sm.prov == "google" {
-				rep.Floor("claims_grid_cases_"+ps, 240)
-			} else {
-				rep.Floor("claims_grid_cases_"+ps, 100)
-			}
 			if sm.cfg.no > 1 {
-				rep.Floor("sessions_created_vouched_"+ps, 5)
-				rep.Floor("refused_"+ps, 100)
-				rep.Floor("mutation_cases_"+ps, nMutCfg*9/10)
+				// under a hosted domain only the claims grid's vouching answers name that domain in hd: a tree that
+				// (legitimately) insists on the claim turns the others down
+				n := 5
+				if sm.cfg.hosted != "" {
+					n = 2
+				}
+				rep.Floor("sessions_created_vouched_"+ps, n)
 			}
 			if sm.siteName != "redeem" {
 				continue
@@ -524,6 +535,13 @@ func TestProp(t *testing.T) {
 				}
 			case "okta":
 				rep.Floor("claims_grid_not_verified_"+tag, 16)
+			}
+		}
+		for _, f := range cfgFloors {
+			rep.Floor("claims_grid_cases_"+f.ps, f.claims*19/20)
+			rep.Floor("refused_"+f.ps, f.nspecs/4)
+			if f.mut > 0 {
+				rep.Floor("mutation_cases_"+f.ps, f.mut*9/10)
 			}
 		}
 		rep.Floor("panic_probe_http_observed", len(ownMounts))
